@@ -19,11 +19,12 @@ SYSCALLS = ("unlink,unlinkat,rmdir,rename,renameat,renameat2,truncate,ftruncate,
 
 
 def has_mmm_ext(name):
-    """Extension in the usual sense: text after the last dot of a name with a non-empty stem."""
+    """Extension in the usual sense (std::path::Path::extension, os.path.splitext): text after the last dot of a
+    name with a non-empty stem.  `.mmm` is a dot-file without extension, like `mmm` it must survive."""
     if name.startswith("."):
         rest = name[1:]
         if "." not in rest:
-            return None if name == ".mmm" else False   # `.mmm`: stem-less, the statement leaves it open
+            return False
         return rest.rsplit(".", 1)[1] == "mmm"
     if "." not in name:
         return False
@@ -284,7 +285,8 @@ def run(ctx):
                 % (len(NAMES), KINDS, n_exh))
     out.coverage.update({"mutating_syscalls_inspected": n_sys, "files_removed_total": removed_total,
                          "entry_classes_seen(ext_mmm,kind)": len(kinds_seen), "exhaustive_part_cases": n_exh})
-    out.assumptions = ["`.mmm` (no stem) and symlinks named *.mmm may or may not be removed (statement leaves it open); "
+    out.assumptions = ["`.mmm` is a dot-file WITHOUT extension (std::path / os.path.splitext sense) and must be kept; symlinks named "
+                       "*.mmm may or may not be removed (statement leaves it open); "
                        "a symlink's target must never change", "strace -f sees every syscall of the process"]
     if out.evaluations == 0 or n_sys == 0:
         out.observed_nothing = "no case executed / strace saw no mutating syscall"
